@@ -291,12 +291,28 @@ def r4(R, M):
                      "DeformationGradientTensor(self.ubi, B) with B chosen by the same test; tensor rotations are U.T.U^T and U^T.T.U")
     gm = M["grain"]
     for meth, want in (("eps_grain_matrix", "finite_strain_ref"), ("eps_sample_matrix", "finite_strain_lab")):
-        fn = gm.ifunc("grain.%s" % meth)          # an extracted 'reference B' / 'deformation gradient' helper is read in place
+        fn = gm.func("grain.%s" % meth)
         calls = [c for c in ast.walk(fn) if isinstance(c, ast.Call) and isinstance(c.func, ast.Attribute) and c.func.attr.startswith("finite_strain_")]
         R.shape(len(calls) == 1, "C10.R4", GR, "grain.%s" % meth, "the finite_strain_* call")
         R.check(calls[0].func.attr == want and len(calls[0].args) == 1 and src(calls[0].args[0]) == "m", "C10.R4", GR, calls[0].lineno, "grain.%s" % meth,
                 "calls %s(m)" % calls[0].func.attr, "%s must use %s with the caller's m (grain frame <-> reference, sample frame <-> lab)" % (meth, want))
         d = [c for c in ast.walk(fn) if isinstance(c, ast.Call) and (pyfacts.dotted(c.func) or "").endswith("DeformationGradientTensor")]
+        if len(d) == 0:
+            # built in a helper: a pure helper is a matter of layout (cannot decide here); a helper that KEEPS the tensor on the object
+            # ( self._x = (..., DeformationGradientTensor(..)) ) without clear_cache dropping it returns the strain of an earlier ubi
+            cc = gm.func("grain.clear_cache") if gm.has("grain.clear_cache") else None
+            cleared = set(src(t) for a_ in ast.walk(cc) if isinstance(a_, ast.Assign) for t in a_.targets) if cc is not None else set()
+            for hc in ast.walk(fn):
+                if isinstance(hc, ast.Call) and isinstance(hc.func, ast.Attribute) and src(hc.func.value) == "self" and gm.has("grain.%s" % hc.func.attr):
+                    hfn = gm.func("grain.%s" % hc.func.attr)
+                    builds = any(isinstance(c_, ast.Call) and (pyfacts.dotted(c_.func) or "").endswith("DeformationGradientTensor") for c_ in ast.walk(hfn))
+                    kept = [a_ for a_ in ast.walk(hfn) if isinstance(a_, ast.Assign) and src(a_.targets[0]).startswith("self._") and src(a_.targets[0]) not in cleared
+                            and not (isinstance(a_.value, ast.Constant) and a_.value.value is None)]
+                    if builds and kept:
+                        R.check(False, "C10.R4", GR, kept[0].lineno, "grain.%s" % hfn.name, "%s keeps a deformation gradient on the object" % src(kept[0].targets[0]),
+                                "the deformation gradient is kept in %s, which clear_cache() does not reset: after set_ubi (or for another reference given as an "
+                                "equal-looking object) eps_* returns the strain of the earlier orientation / reference" % src(kept[0].targets[0]))
+        R.shape(len(d) == 1, "C10.R4", GR, "grain.%s" % meth, "the DeformationGradientTensor(...) call in the method itself (moved into a helper?)")
         R.check(len(d) == 1 and [src(a) for a in d[0].args] == ["self.ubi", "B"], "C10.R4", GR, fn.lineno, "grain.%s" % meth,
                 "DeformationGradientTensor(self.ubi, B)", "the deformation gradient is not built from this grain's ubi and the reference B")
         r4_reference_b(R, gm, fn, meth, d[0].args[1])
